@@ -10,6 +10,24 @@
 //   system : BuildSystem(delegate named "vclient", version 0).loadDescription(...): the same loader driven by
 //            the build system's own file delegate, i.e. with the real built-in tools (shell, phony, clang, mkdir,
 //            symlink, archive, shared-library, stale-file-removal, swift-compiler) and their attribute parsers.
+//   model  : (C19 YAML loader MODEL correspondence; input line "<salt> <hex>" or "<salt> nofile")  BuildFile::load() with a
+//            fully SCRIPTED delegate whose every answer is a fixed rule that lean/LLBuild/Drv/C19Yaml.lean replicates
+//            (tools vtool/shell/phony -> external commands, mkdir/symlink -> non-external commands, archive -> a tool
+//            that creates no command, everything else unknown; scripted Tool / Command classes; real BuildNodes).  With
+//            salt = 2k+b (k >= 1) the k-th answerable call (configureClient, lookupTool, createCommand, tool / command
+//            configureAttribute) is forced to fail: b=0 reporting "forced failure" through its ConfigureContext (where it
+//            has one), b=1 silently.  One output line:
+//              T <node tree of a SEPARATE run of the real llvm YAML parser over the same bytes> | O <iteration order of an
+//              llvm::StringMap holding the loaded command names> | X <every delegate call and error callback of the real
+//              load(), in order, with the token offsets of errors / ConfigureContexts> r=<result>
+//            tree tokens (preorder): S@off:len:<hex value>  M@off:len:<n> (then n x: E@off:len key value)  L@off:len:<n>
+//            N@ B@ A@ (null, block scalar, alias)  Z (a null Node*: malformed input)  D (next document)  '!' after a
+//            count = children below depth kTreeDepthCap not printed (the loader never looks below depth 4).
+//   capi   : the same loader driven through the public C API (products/libllbuild, llb_buildsystem_create / _initialize) by a
+//            client that defines ONE custom tool, "ctool" (llb_buildsystem_tool_create; it creates no commands).  Prints
+//            init=<llb_buildsystem_initialize returned> n=<number of handle_diagnostic calls> diags=<hex message,...|.>.
+//            Used to replay the witness of C19_yaml_null_implies_error_full_false on an in-tree tool (CAPITool's
+//            configureAttribute returns false without reporting).
 //   wf     : only asks the vendored YAML parser whether it accepts the whole stream (prints wf=0|1); used to decide
 //            whether an input that killed the loader was inside the property's quantifier (well-formed documents).
 //
@@ -36,6 +54,9 @@
 #include "llvm/Support/YAMLParser.h"
 #include "llvm/Support/raw_ostream.h"
 
+#include <llbuild/llbuild.h>
+
+#include <algorithm>
 #include <memory>
 #include <unistd.h>
 
@@ -251,6 +272,370 @@ void run(bool viaSystem) {
   }
 }
 
+
+// ---- mode model: scripted delegate + node tree of the real YAML parser ------------------------------------------------
+const unsigned kTreeDepthCap = 6;
+
+struct TreeDump {
+  const char* base = nullptr;
+  bool sawNull = false;
+  std::string at(yaml::Node* n) {
+    SMRange r = n->getSourceRange();
+    return "@" + std::to_string(r.Start.getPointer() - base) + ":" + std::to_string(r.End.getPointer() - r.Start.getPointer());
+  }
+  void node(yaml::Node* n, unsigned depth, std::string& out) {
+    if (!n) { sawNull = true; out += " Z"; return; }
+    switch (n->getType()) {
+    case yaml::Node::NK_Scalar: {
+      SmallString<256> storage;
+      out += " S" + at(n) + ":" + vh::hexEncode(static_cast<yaml::ScalarNode*>(n)->getValue(storage).str());
+      return;
+    }
+    case yaml::Node::NK_Mapping: {
+      std::string kids; unsigned count = 0; bool pruned = depth >= kTreeDepthCap;
+      if (!pruned) {
+        for (auto& e : *static_cast<yaml::MappingNode*>(n)) {
+          kids += " E" + at(&e);
+          node(e.getKey(), depth + 1, kids);
+          node(e.getValue(), depth + 1, kids);
+          ++count;
+        }
+      }
+      out += " M" + at(n) + ":" + std::to_string(count) + (pruned ? "!" : "") + kids;
+      return;
+    }
+    case yaml::Node::NK_Sequence: {
+      std::string kids; unsigned count = 0; bool pruned = depth >= kTreeDepthCap;
+      if (!pruned) {
+        for (auto& e : *static_cast<yaml::SequenceNode*>(n)) { node(&e, depth + 1, kids); ++count; }
+      }
+      out += " L" + at(n) + ":" + std::to_string(count) + (pruned ? "!" : "") + kids;
+      return;
+    }
+    case yaml::Node::NK_Null: out += " N" + at(n); return;
+    case yaml::Node::NK_BlockScalar: out += " B" + at(n); return;
+    case yaml::Node::NK_Alias: out += " A" + at(n); return;
+    default: out += " K" + at(n); return;   // NK_KeyValue cannot be a child
+    }
+  }
+};
+
+// the tree of every document of the stream, as the real parser produces it; sets wf
+std::string dumpTree(const std::string& contents, bool& wf) {
+  SourceMgr sm;
+  sm.setDiagHandler(dropDiag, nullptr);
+  auto buf = MemoryBuffer::getMemBufferCopy(contents, "tree");
+  yaml::Stream stream(buf->getMemBufferRef(), sm);
+  TreeDump td;
+  td.base = buf->getBufferStart();
+  std::string out = "T";
+  bool first = true;
+  for (auto it = stream.begin(); it != stream.end(); ++it) {
+    if (!first) out += " D";
+    first = false;
+    yaml::Node* root = it->getRoot();
+    td.node(root, 0, out);
+    if (!root) break;
+  }
+  wf = !stream.failed() && !td.sawNull;
+  return out;
+}
+
+class MDelegate;
+
+struct MTrace {
+  std::vector<std::string> items;
+  const char* bufStart = nullptr;
+  size_t bufLen = 0;
+  unsigned salt = 0, calls = 0;
+  std::string at(const BuildFileToken& t) const {
+    if (t.start == nullptr) return "none";
+    if (bufStart == nullptr || t.start < bufStart || t.start + t.length > bufStart + bufLen + 1) return "outside";
+    return std::to_string(t.start - bufStart) + "+" + std::to_string(t.length);
+  }
+  // the k-th answerable call is forced to fail when salt = 2k+b; silent iff b = 1
+  bool forced(bool& silent) {
+    ++calls;
+    if (salt >= 2 && calls == salt / 2) { silent = (salt & 1) != 0; return true; }
+    return false;
+  }
+  // an answer with a ConfigureContext: apply the forced failure, report, record the completed call
+  bool answer(const std::string& item, const ConfigureContext& ctx, bool ok, const std::string& err) {
+    bool silent = false;
+    std::string e = ok ? std::string() : err;
+    if (forced(silent)) { ok = false; e = silent ? std::string() : std::string("forced failure"); }
+    if (!ok && !e.empty()) ctx.error(e);
+    items.push_back(item + ":" + at(ctx.at) + ":" + (ok ? "1" : "0"));
+    return ok;
+  }
+};
+
+std::string hexNames(const std::vector<Node*>& v) {
+  std::vector<std::string> l;
+  for (auto* n : v) l.push_back(n->getName().str());
+  return vh::hexListEncode(l);
+}
+std::string hexPairs(ArrayRef<std::pair<StringRef, StringRef>> v) {
+  if (v.empty()) return ".";
+  std::string out;
+  for (size_t i = 0; i < v.size(); i++) { if (i) out += ","; out += vh::hexEncode(v[i].first.str()) + "=" + vh::hexEncode(v[i].second.str()); }
+  return out;
+}
+std::string hexRefs(ArrayRef<StringRef> v) {
+  std::vector<std::string> l;
+  for (auto s : v) l.push_back(s.str());
+  return vh::hexListEncode(l);
+}
+
+class MCommand : public Command {
+  MTrace& t;
+  bool external;
+  std::string hn() const { return vh::hexEncode(getName().str()); }
+public:
+  MCommand(StringRef name, MTrace& t, bool external) : Command(name), t(t), external(external) {}
+  void getShortDescription(SmallVectorImpl<char>&) const override {}
+  void getVerboseDescription(SmallVectorImpl<char>&) const override {}
+  void configureDescription(const ConfigureContext& ctx, StringRef v) override {
+    if (v.empty()) ctx.error("empty description");
+    t.items.push_back("cd:" + hn() + ":" + vh::hexEncode(v.str()) + ":" + t.at(ctx.at));
+  }
+  void configureInputs(const ConfigureContext& ctx, const std::vector<Node*>& v) override {
+    for (auto* n : v) inputs.push_back(static_cast<BuildNode*>(n));
+    t.items.push_back("ci:" + hn() + ":" + hexNames(v) + ":" + t.at(ctx.at));
+  }
+  void configureOutputs(const ConfigureContext& ctx, const std::vector<Node*>& v) override {
+    for (auto* n : v) outputs.push_back(static_cast<BuildNode*>(n));
+    t.items.push_back("co:" + hn() + ":" + hexNames(v) + ":" + t.at(ctx.at));
+  }
+  bool configureAttribute(const ConfigureContext& ctx, StringRef name, StringRef value) override {
+    std::string item = "ca:" + hn() + ":" + vh::hexEncode(name.str()) + ":s=" + vh::hexEncode(value.str());
+    if (name == "allow-missing-inputs" || name == "allow-modified-outputs" || name == "always-out-of-date") {
+      bool ok = value == "true" || value == "false";
+      return t.answer(item, ctx, ok, ("invalid value: '" + value + "' for attribute '" + name + "'").str());
+    }
+    if (name == "repair-via-ownership-analysis") {
+      bool ok = value == "true" || value == "false";
+      bool r = t.answer(item, ctx, ok, ("invalid value for attribute: '" + name + "'").str());
+      if (r) repairViaOwnershipAnalysis = value == "true";
+      return r;
+    }
+    bool known = name == "args" || name == "signature" || name == "working-directory" || name == "deps" || name == "deps-style" ||
+                 name == "inherit-env" || name == "can-safely-interrupt" || name == "control-enabled";
+    return t.answer(item, ctx, known, ("unexpected attribute: '" + name + "'").str());
+  }
+  bool configureAttribute(const ConfigureContext& ctx, StringRef name, ArrayRef<StringRef> values) override {
+    std::string item = "ca:" + hn() + ":" + vh::hexEncode(name.str()) + ":l=" + hexRefs(values);
+    return t.answer(item, ctx, name == "args" || name == "deps", ("unexpected attribute: '" + name + "'").str());
+  }
+  bool configureAttribute(const ConfigureContext& ctx, StringRef name, ArrayRef<std::pair<StringRef, StringRef>> values) override {
+    std::string item = "ca:" + hn() + ":" + vh::hexEncode(name.str()) + ":m=" + hexPairs(values);
+    return t.answer(item, ctx, name == "env", ("unexpected attribute: '" + name + "'").str());
+  }
+  BuildValue getResultForOutput(Node*, const BuildValue&) override { return BuildValue::makeInvalid(); }
+  bool isResultValid(BuildSystem&, const BuildValue&) override { return false; }
+  void start(BuildSystem&, core::TaskInterface) override {}
+  void providePriorValue(BuildSystem&, core::TaskInterface, const BuildValue&) override {}
+  void provideValue(BuildSystem&, core::TaskInterface, uintptr_t, const core::KeyType&, const BuildValue&) override {}
+  bool isExternalCommand() const override { return external; }
+  void execute(BuildSystem&, core::TaskInterface, basic::QueueJobContext*, ResultFn) override {}
+};
+
+class MTool : public Tool {
+  MTrace& t;
+  std::string hn() const { return vh::hexEncode(getName().str()); }
+public:
+  MTool(StringRef name, MTrace& t) : Tool(name), t(t) {}
+  bool configureAttribute(const ConfigureContext& ctx, StringRef name, StringRef value) override {
+    return t.answer("ta:" + hn() + ":" + vh::hexEncode(name.str()) + ":s=" + vh::hexEncode(value.str()), ctx, name == "opt",
+                    ("unexpected attribute: '" + name + "'").str());
+  }
+  bool configureAttribute(const ConfigureContext& ctx, StringRef name, ArrayRef<StringRef> values) override {
+    return t.answer("ta:" + hn() + ":" + vh::hexEncode(name.str()) + ":l=" + hexRefs(values), ctx, name == "opts",
+                    ("unexpected attribute: '" + name + "'").str());
+  }
+  bool configureAttribute(const ConfigureContext& ctx, StringRef name, ArrayRef<std::pair<StringRef, StringRef>> values) override {
+    return t.answer("ta:" + hn() + ":" + vh::hexEncode(name.str()) + ":m=" + hexPairs(values), ctx, name == "optmap",
+                    ("unexpected attribute: '" + name + "'").str());
+  }
+  std::unique_ptr<Command> createCommand(StringRef name) override {
+    bool silent = false;
+    bool ok = getName() != "archive";
+    if (t.forced(silent)) ok = false;
+    t.items.push_back("mk:" + hn() + ":" + vh::hexEncode(name.str()) + ":" + (ok ? "1" : "0"));
+    if (!ok) return nullptr;
+    bool external = getName() == "vtool" || getName() == "shell" || getName() == "phony";
+    return llvm::make_unique<MCommand>(name, t, external);
+  }
+};
+
+class MDelegate : public BuildFileDelegate {
+public:
+  MTrace t;
+  OneFileFS fs;
+  bool readable = true;
+  llvm::StringSet<> interned;
+  std::vector<std::string> loadedCommands;
+
+  StringRef getInternedString(StringRef value) override { return interned.insert(value).first->getKey(); }
+  FileSystem& getFileSystem() override { return fs; }
+  void setFileContentsBeingParsed(StringRef buffer) override {
+    t.bufStart = buffer.data(); t.bufLen = buffer.size();
+    t.items.push_back("sb");
+  }
+  void error(StringRef, const BuildFileToken& at, const Twine& message) override {
+    t.items.push_back("x:" + vh::hexEncode(message.str()) + ":" + t.at(at));
+  }
+  void cannotLoadDueToMultipleProducers(Node* output, std::vector<Command*> commands) override {
+    std::vector<std::string> l;
+    for (auto* c : commands) l.push_back(c->getName().str());
+    t.items.push_back("mp:" + vh::hexEncode(output->getName().str()) + ":" + vh::hexListEncode(l));
+  }
+  bool configureClient(const ConfigureContext& ctx, StringRef name, uint32_t version, const property_list_type& props) override {
+    std::string p = ".";
+    if (!props.empty()) {
+      p.clear();
+      for (size_t i = 0; i < props.size(); i++) { if (i) p += ","; p += vh::hexEncode(props[i].first) + "=" + vh::hexEncode(props[i].second); }
+    }
+    bool ok = name == "vclient" && version == 0;
+    return t.answer("cc:" + vh::hexEncode(name.str()) + ":" + std::to_string(version) + ":" + p, ctx, ok, "unexpected client");
+  }
+  std::unique_ptr<Tool> lookupTool(StringRef name) override {
+    bool silent = false;
+    bool ok = name == "vtool" || name == "shell" || name == "phony" || name == "mkdir" || name == "symlink" || name == "archive";
+    if (t.forced(silent)) ok = false;
+    t.items.push_back("lt:" + vh::hexEncode(name.str()) + ":" + (ok ? "1" : "0"));
+    if (!ok) return nullptr;
+    return llvm::make_unique<MTool>(name, t);
+  }
+  void loadedTarget(StringRef name, const Target& target) override {
+    t.items.push_back("tg:" + vh::hexEncode(name.str()) + ":" + hexNames(target.getNodes()));
+  }
+  void loadedDefaultTarget(StringRef name) override { t.items.push_back("dt:" + vh::hexEncode(name.str())); }
+  void loadedCommand(StringRef name, const Command&) override {
+    loadedCommands.push_back(name.str());
+    t.items.push_back("lc:" + vh::hexEncode(name.str()));
+  }
+  std::unique_ptr<Node> createNode(StringRef name, bool isImplicit) override {
+    t.items.push_back("cn:" + vh::hexEncode(name.str()) + ":" + (isImplicit ? "1" : "0"));
+    if (name.endswith("/")) return BuildNode::makeDirectory(name);
+    if (!name.empty() && name[0] == '<' && name.back() == '>') return BuildNode::makeVirtual(name);
+    return BuildNode::makePlain(name);
+  }
+};
+
+template <typename Map> std::string sortedKeys(const Map& m) {
+  std::vector<std::string> l;
+  for (auto& e : m) l.push_back(e.getKey().str());
+  std::sort(l.begin(), l.end());
+  return vh::hexListEncode(l);
+}
+
+void runModel() {
+  std::string line;
+  while (std::getline(std::cin, line)) {
+    auto f = vh::split(line);
+    if (f.size() != 2) { std::cout << "bad-op\n"; std::cout.flush(); continue; }
+    alarm(20);
+    MDelegate d;
+    d.t.salt = (unsigned)atoi(f[0].c_str());
+    std::string contents;
+    bool readable = f[1] != "nofile";
+    if (readable) contents = vh::hexDecode(f[1]);
+    d.fs.contents = contents;
+    std::string result;
+    {
+      BuildFile file(readable ? kPath : "/vc19/missing.llbuild", d);
+      std::unique_ptr<BuildDescription> description = file.load();
+      if (!description) result = "r=null";
+      else {
+        // the description: tools, targets, default target, nodes with their final type, commands (each sorted)
+        std::vector<std::string> nodes;
+        for (auto& e : description->getNodes()) {
+          auto* n = static_cast<BuildNode*>(e.second.get());
+          nodes.push_back(e.getKey().str() + (n->isVirtual() ? "=v" : n->isDirectory() ? "=d" : n->isDirectoryStructure() ? "=s" : "=p"));
+        }
+        std::sort(nodes.begin(), nodes.end());
+        result = "r=desc:" + sortedKeys(description->getTools()) + ":" + sortedKeys(description->getTargets()) + ":" +
+                 vh::hexEncode(description->getDefaultTarget()) + ":" + vh::hexListEncode(nodes) + ":" + sortedKeys(description->getCommands());
+      }
+    }
+    // iteration order of a StringMap that received the loaded command names in the loader's insertion order
+    BuildDescription::command_set order;
+    for (auto& n : d.loadedCommands) order[n] = nullptr;
+    std::vector<std::string> ord;
+    for (auto& e : order) ord.push_back(e.getKey().str());
+    bool wf = false;
+    std::string tree = readable ? dumpTree(contents, wf) : std::string("T nofile");
+    if (!readable) wf = true;
+    alarm(0);
+    std::string out = tree + " | O " + vh::hexListEncode(ord) + " | wf=" + (wf ? "1" : "0") + " | X";
+    for (auto& it : d.t.items) out += " " + it;
+    out += " " + result;
+    std::cout << out << "\n";
+    std::cout.flush();
+  }
+}
+
+
+// ---- mode capi: the loader behind the public C API, with a client-defined tool --------------------------------------
+struct CapiCtx { std::string contents; std::vector<std::string> diags; };
+
+bool capiGetFileContents(void* c, const char* path, llb_data_t* out) {
+  auto* ctx = static_cast<CapiCtx*>(c);
+  if (std::string(path) != kPath) return false;
+  char* copy = (char*)malloc(ctx->contents.size() + 1);
+  memcpy(copy, ctx->contents.data(), ctx->contents.size());
+  out->length = ctx->contents.size();
+  out->data = (const uint8_t*)copy;
+  return true;
+}
+void capiDiag(void* c, llb_buildsystem_diagnostic_kind_t, const char*, int, int, const char* message) {
+  static_cast<CapiCtx*>(c)->diags.push_back(message);
+}
+llb_buildsystem_command_t* capiCreateCommand(void*, const llb_data_t*) { return nullptr; }
+llb_buildsystem_tool_t* capiLookupTool(void*, const llb_data_t* name) {
+  if (std::string((const char*)name->data, name->length) != "ctool") return nullptr;
+  llb_buildsystem_tool_delegate_t td = {};
+  td.create_command = capiCreateCommand;
+  return llb_buildsystem_tool_create(name, td);
+}
+void capiCmd(void*, llb_buildsystem_command_t*) {}
+void capiCmdFinished(void*, llb_buildsystem_command_t*, llb_buildsystem_command_result_t) {}
+void capiDep(void*, llb_buildsystem_command_t*, const char*, llb_buildsystem_discovered_dependency_kind_t) {}
+void capiProcStarted(void*, llb_buildsystem_command_t*, llb_buildsystem_process_t*) {}
+void capiProcData(void*, llb_buildsystem_command_t*, llb_buildsystem_process_t*, const llb_data_t*) {}
+void capiProcFinished(void*, llb_buildsystem_command_t*, llb_buildsystem_process_t*, const llb_buildsystem_command_extended_result_t*) {}
+
+void runCAPI() {
+  std::string line;
+  while (std::getline(std::cin, line)) {
+    alarm(20);
+    CapiCtx ctx;
+    ctx.contents = vh::hexDecode(line);
+    llb_buildsystem_delegate_t d = {};
+    d.context = &ctx;
+    d.fs_get_file_contents = capiGetFileContents;
+    d.handle_diagnostic = capiDiag;
+    d.lookup_tool = capiLookupTool;
+    d.command_started = capiCmd;
+    d.command_finished = capiCmdFinished;
+    d.command_found_discovered_dependency = capiDep;
+    d.command_process_started = capiProcStarted;
+    d.command_process_had_error = capiProcData;
+    d.command_process_had_output = capiProcData;
+    d.command_process_finished = capiProcFinished;
+    llb_buildsystem_invocation_t inv = {};
+    inv.buildFilePath = kPath;
+    inv.useSerialBuild = true;
+    llb_buildsystem_t* system = llb_buildsystem_create(d, inv);
+    bool ok = llb_buildsystem_initialize(system);
+    llb_buildsystem_destroy(system);
+    alarm(0);
+    std::cout << "init=" << (ok ? "1" : "0") << " n=" << ctx.diags.size() << " diags=" << vh::hexListEncode(ctx.diags) << "\n";
+    std::cout.flush();
+  }
+}
+
 }  // namespace
 
 int main(int argc, char** argv) {
@@ -259,6 +644,8 @@ int main(int argc, char** argv) {
   std::string mode = argv[1];
   if (mode == "file") run(false);
   else if (mode == "system") run(true);
+  else if (mode == "model") runModel();
+  else if (mode == "capi") runCAPI();
   else if (mode == "wf") {
     std::string line;
     while (std::getline(std::cin, line)) {
